@@ -331,3 +331,239 @@ def events_unit(prop, n_steps, configs, backward=False, with_teval=None, event_v
 
     unit.__name__ = nm
     return unit
+
+
+# ============================================================================== C06 dense collection / lookup
+def c06_dense_collection(n_steps, backward=False):
+    """The handler stores exactly one dense segment per accepted step -- whatever the step length
+    (down to the resolution of x, far below its 1e-12 time slack)."""
+
+    def unit(tier="quick", seed=0):
+        t0 = time.time()
+        nm = f"c06_dense_collection_{n_steps}steps" + ("_back" if backward else "")
+        ob = Ob(nm)
+        paths, gen_s = seq(n_steps=n_steps, t_eval_len=None, configs=[], backward=backward, dense=True, min_step=Fraction(1, 10 ** 18))
+        ob.paths = len(paths)
+        for p in paths:
+            if p.outcome.startswith("panic"):
+                ob.failed.append((f"handler panicked: {p.outcome}", p.label(), {}, p.script()))
+                continue
+            ds = p.so.f["dense_segs"].items()
+            ob.check(p, len(ds) == p.n_steps, f"dense output: {len(ds)} segments stored for {p.n_steps} accepted steps")
+            for k, sgm in enumerate(ds[: p.n_steps]):
+                ob.check(p, same(sgm[1], p.xs[k]), "dense output: a stored segment does not start at its step's left end")
+            if len(ob.samples) < 2:
+                ob.samples.append({"path": p.label(), "segments": len(ds)})
+        return ob.result(t0, {"functions": ["DefaultSolOut::solout dense collection"], "bounds": f"{n_steps} steps of any length above 16 ulp; {len(paths)} paths", "path_generation_s": round(gen_s, 1)},
+                         replay_fn=lambda f: replay.handler_replay(f))
+
+    unit.__name__ = f"c06_dense_collection_{n_steps}steps" + ("_back" if backward else "")
+    return unit
+
+
+class MethodModel:
+    pass
+
+
+def c06_lookup(n_seg, backward=False):
+    """ContinuousOutput::from_segments / t_span / evaluate / find_segment and Solution::sol on symbolic
+    contiguous segments (each segment's right end is fl(xold + h), which is the next left end)."""
+
+    def unit(tier="quick", seed=0):
+        from . import domains as D, model as M
+        from .interp import Interp, FnVal, explore, PathEnd, RustPanic, some, NONE
+        from .stepper import zabs, zmax
+        t0 = time.time()
+        nm = f"c06_lookup_{n_seg}segments" + ("_back" if backward else "")
+        ob = Ob(nm)
+        its = M.load_items("src/solve/cont.rs", "src/solve/solution.rs", "src/dense.rs")
+        results = []
+
+        def run(preset):
+            dom = D.Round()
+            used = []
+
+            def ident(it_, xi, yi, cont, xold, h):
+                for i in range(len(yi)):
+                    yi.set(i, xi)
+                used.append((cont.items()[0], xold, h))
+                return None
+
+            def m_interp_fn(it_, recv, arg_ns, env, node):
+                if isinstance(recv, MethodModel):
+                    return FnVal("identity_interpolant", py=ident)
+                return NotImplemented
+
+            it = Interp(dom, its, {"methods": {"interpolate_fn": m_interp_fn}, "fns": {}, "globals": {}, "ctors": {}})
+            it.preset = preset
+            d = -1 if backward else 1
+            x0 = dom.sym("x0")
+            dom.add(zabs(x0.t) <= z3.RealVal(10) ** 6)
+            xs = [x0]
+            segs = []
+            for k in range(n_seg):
+                h = dom.sym(f"h{k}")
+                dom.add(h.t * d > qv(Fraction(4, 10 ** 12)))
+                dom.add(zabs(h.t) <= z3.RealVal(10) ** 6)
+                dom.add(h.t * d >= qv(16 * EPS) * zabs(xs[-1].t))
+                segs.append((RVec([dom.const(k)]), xs[-1], h))
+                xs.append(dom.arith("+", xs[-1], h))
+            t = dom.sym("t")
+            enabled = it.truth(dom.fresh_bool("dense_enabled"), "dense enabled")
+            co = it.call_fn("ContinuousOutput::from_segments", [MethodModel(), 1, RVec(segs)])
+            sol = RStruct("Solution", {"continuous_sol": some(co) if enabled else NONE})
+            try:
+                r = it.call_fn("Solution::sol", [sol, t])
+                out = ("return", r)
+            except RustPanic as e:
+                out = ("panic", str(e))
+            span = it.call_fn("ContinuousOutput::t_span", [co])
+            from .stepper import IterPath
+            return it.trail, IterPath(outcome=out, dom=dom, it=it, xs=xs, t=t, used=used, enabled=enabled, span=span, dirn=d, segs=segs)
+
+        paths = []
+        for dec, trail, p in explore(run, max_paths=2000):
+            p.decisions = dec
+            p.trail = trail
+            p.dom.solver = None
+            paths.append(p)
+        ob.paths = len(paths)
+        for p in paths:
+            d = p.dirn
+            if p.outcome[0] == "panic":
+                ob.failed.append((f"sol() panicked: {p.outcome[1]}", p.label(), {}, {}))
+                continue
+            r = p.outcome[1]
+            lo = p.xs[0].t if d > 0 else p.xs[-1].t
+            hi = p.xs[-1].t if d > 0 else p.xs[0].t
+            if not p.enabled:
+                ok = isinstance(r, REnum) and r.name == "Err" and "NotEnabled" in repr(r)
+                ob.check(p, ok, "sol() without dense output does not report NotEnabled")
+                continue
+            sp_ = p.span
+            ok = isinstance(sp_, REnum) and sp_.name == "Some" and same(sp_.payload[0][0], p.xs[0]) and same(sp_.payload[0][1], p.xs[-1])
+            ob.check(p, ok, "t_span is not (x0, last reported x) bit-for-bit")
+            inside = z3.And(p.t.t >= lo, p.t.t <= hi)
+            sl = qv(TOL) * 2 + qv(8 * EPS) * (zabs(lo) + zabs(hi))
+            clearly_out = z3.Or(p.t.t < lo - sl, p.t.t > hi + sl)
+            if isinstance(r, REnum) and r.name == "Ok":
+                ob.check(p, z3.Not(clearly_out), "sol(t) succeeds for a time clearly outside the covered span")
+                val = r.payload[0].items()[0]
+                ob.check(p, same(val, p.t), "sol(t) does not evaluate an interpolant at t")
+                if p.used:
+                    k, xold, h = p.used[-1]
+                    a, b = xold.t, p.xs[int(k.exact_const) + 1].t
+                    l2, h2 = (a, b) if d > 0 else (b, a)
+                    ob.check(p, z3.And(p.t.t >= l2 - sl, p.t.t <= h2 + sl), "sol(t) evaluates a segment that does not contain t")
+            else:
+                ob.check(p, z3.Not(inside), "sol(t) fails for a time inside the covered span")
+                ob.check(p, "OutOfRange" in repr(r), "sol(t) outside the span does not report OutOfRange")
+            if len(ob.samples) < 2:
+                ob.samples.append({"path": p.label(), "result": repr(r)[:60]})
+        return ob.result(t0, {"functions": ["ContinuousOutput::from_segments, t_span, evaluate, find_segment", "Solution::sol", "DenseSegment::new/interpolate"],
+                              "bounds": f"{n_seg} contiguous segments (right end = fl(xold+h)), query time symbolic; {len(paths)} paths", "path_generation_s": 0})
+
+    unit.__name__ = f"c06_lookup_{n_seg}segments" + ("_back" if backward else "")
+    return unit
+
+
+# ============================================================================== solve_ivp head (option plumbing, zero interval)
+def solve_ivp_head(tier="quick", seed=0):
+    """solve_ivp's own code before it dispatches to a solver: the zero-length-interval shortcut and what
+    it hands to the output handler (t_eval, dense flag, first_step no larger than the span, x0, n)."""
+    from . import domains as D, model as M
+    from .interp import Interp, explore, PathEnd, RustPanic, some, NONE
+    from .stepper import IterPath, zabs
+    t0 = time.time()
+    ob = Ob("c03_solve_ivp_head")
+    its = M.load_items("src/solve/solve_ivp.rs")
+    paths = []
+
+    def run(preset):
+        dom = D.Round()
+        got = {}
+
+        def ctor(it_, ode, t_eval, dense, first_step, x0, n):
+            got.update(t_eval=t_eval, dense=dense, first_step=first_step, x0=x0, n=n)
+            raise PathEnd("handler_constructed")
+
+        class Ode:
+            pass
+
+        def m_n_events(it_, recv, arg_ns, env, node):
+            return 0 if isinstance(recv, Ode) else NotImplemented
+
+        def const_ctor(it_, method, x0, y0):
+            return RStruct("ContinuousOutput", {"constant": True, "x0": x0})
+
+        hooks = {"methods": {"n_events": m_n_events}, "fns": {"DefaultSolOut::new": ctor, "ContinuousOutput::constant": const_ctor},
+                 "globals": {}, "ctors": {}}
+        it = Interp(dom, its, hooks)
+        it.preset = preset
+        x0, xend, fs = dom.sym("x0"), dom.sym("xend"), dom.sym("first_step")
+        dom.add(z3.And(zabs(x0.t) <= 10 ** 6, zabs(xend.t) <= 10 ** 6, fs.t > 0))
+        te = [dom.sym("te0"), dom.sym("te1")]
+        has_te = it.truth(dom.fresh_bool("has_t_eval"), "t_eval given")
+        has_fs = it.truth(dom.fresh_bool("has_first_step"), "first_step given")
+        dense = it.truth(dom.fresh_bool("dense"), "dense")
+        y0 = RVec([dom.opaque("y0")])
+        opts = RStruct("Options", {"t_eval": some(RVec(te)) if has_te else NONE, "dense_output": dense, "first_step": some(fs) if has_fs else NONE,
+                                   "method": REnum("DOPRI5"), "max_step": NONE, "min_step": NONE, "max_steps": NONE,
+                                   "rtol": M.tol_scalar(dom.const(Fraction(1, 1000))), "atol": M.tol_scalar(dom.const(Fraction(1, 10 ** 6)))})
+        try:
+            r = it.call_fn("solve_ivp", [Ode(), x0, xend, y0, opts])
+            out = ("return", r)
+        except PathEnd as e:
+            out = ("end", e.kind)
+        except RustPanic as e:
+            out = ("panic", str(e))
+        return it.trail, IterPath(outcome=out, dom=dom, it=it, got=got, x0=x0, xend=xend, fs=fs, te=te, has_te=has_te, has_fs=has_fs, dense=dense, y0=y0)
+
+    for dec, trail, p in explore(run, max_paths=500):
+        p.decisions = dec
+        p.trail = trail
+        p.dom.solver = None
+        paths.append(p)
+    ob.paths = len(paths)
+    for p in paths:
+        if p.outcome[0] == "panic":
+            ob.failed.append((f"solve_ivp panicked: {p.outcome[1]}", p.label(), {}, {}))
+            continue
+        if p.outcome[0] == "return":
+            # zero-length interval (or empty state): Success, counters zero, samples = requested times at x0 (or [x0])
+            r = p.outcome[1]
+            ok = isinstance(r, REnum) and r.name == "Ok"
+            ob.check(p, ok, "zero-length run does not return Ok")
+            if ok:
+                s = r.payload[0].f
+                ob.check(p, zabs(p.xend.t - p.x0.t) < qv(Fraction(1, 10 ** 15)) * (1 + qv(4 * EPS)) + qv(4 * EPS) * zabs(p.x0.t), "shortcut taken although the interval is not (numerically) empty")
+                ob.check(p, all(s[k] == 0 for k in ("nfev", "njev", "nlu", "nstep", "naccpt", "nrejct")), "zero-length run reports non-zero counters")
+                ob.check(p, isinstance(s["status"], REnum) and s["status"].name == "Success", "zero-length run is not Success")
+                t, y = s["t"].items(), s["y"].items()
+                ob.check(p, len(t) == len(y), "zero-length run: t and y lengths differ")
+                if p.has_te:
+                    for tv in t:
+                        ob.check(p, any(same(tv, q_) for q_ in p.te), "zero-length run reports a time that was not requested")
+                        ob.check(p, zabs(tv.t - p.x0.t) <= qv(TOL) * (1 + qv(4 * EPS)) + qv(4 * EPS) * zabs(p.x0.t), "zero-length run reports a requested time that is not x0")
+                else:
+                    ob.check(p, len(t) == 1 and same(t[0], p.x0), "zero-length run without t_eval does not report [x0]")
+                ob.check(p, (s["continuous_sol"].name == "Some") == p.dense, "zero-length run: dense output presence does not follow the option")
+            continue
+        g = p.got
+        ob.check(p, same(g["x0"], p.x0) and g["n"] == 1, "handler constructed with the wrong x0 / dimension")
+        ob.check(p, g["dense"] is p.dense, "handler's dense flag is not the option")
+        if p.has_te:
+            tv = g["t_eval"].payload[0].items()
+            ob.check(p, len(tv) == 2 and all(same(a, b) for a, b in zip(tv, p.te)), "handler does not receive the requested times unchanged")
+        else:
+            ob.check(p, g["t_eval"].name == "None", "handler receives requested times although none were given")
+        if p.has_fs:
+            f = g["first_step"].payload[0] if g["first_step"].name == "Some" else None
+            ob.check(p, f is not None, "first_step option is not handed to the handler")
+            if f is not None:
+                # the handler enforces a first output at x0 +- first_step: it must not lie beyond xend
+                ob.check(p, zabs(f.t) <= zabs(p.xend.t - p.x0.t) * (1 + qv(4 * EPS)), "the first-output target handed to the handler lies beyond xend (first_step larger than the interval)")
+        else:
+            ob.check(p, g["first_step"].name == "None", "handler receives a first_step although none was given")
+    return ob.result(t0, {"functions": ["solve_ivp (head: zero-interval shortcut, handler construction)"], "bounds": f"{len(paths)} paths; options symbolic (t_eval of length 2, first_step > 0, dense flag)"},
+                     replay_fn=lambda f: replay.first_step_replay())
